@@ -989,6 +989,11 @@ theorem pres_update {f : Nat} (ih : PresAll f) (P : Id → Prop) (r : Root) (cur
         · cases hx
         · rename_i r4 h4
           obtain ⟨i4, g4⟩ := ih.dchildren P r3 cur r4 i3 h4
+          -- repair D22: a cleanup disposed the node itself, the update stops here
+          split at hx
+          · simp only [Except.ok.injEq] at hx
+            subst hx
+            exact ⟨i4, (g2.trans g3).trans g4⟩
           split at hx
           · cases hx
           · rename_i r5 new obs h5
@@ -2327,6 +2332,21 @@ theorem safe_update {f : Nat} (ih : SafeAll f) (P : Id → Prop) (r : Root) (cur
       · rename_i r4 he4
         rw [he4] at h4
         obtain ⟨i4, g4⟩ := (presAll f).dchildren P r3 cur r4 i3 he4
+        -- repair D22: a cleanup disposed the node itself, the update stops here
+        by_cases hd4 : r4.get? cur = none
+        · rw [if_pos hd4]
+          refine ⟨h4.1, (h4.2.batching.trans hb3).trans hb.symm, ?_⟩
+          intro j m m' hm hmv hm'
+          by_cases hj : j = cur
+          · subst hj; rw [hd4] at hm'; cases hm'
+          · cases h3j : r3.get? j with
+            | none =>
+              have : j < r3.nodes.size := by
+                rw [show r3.nodes.size = r2.nodes.size by subst hr3; exact (SameFrame.setNode ..).1, hsz2]
+                exact Root.lt_size_of_get? hm
+              rw [g4.dead j this h3j] at hm'; cases hm'
+            | some m3 => exact h4.2.keep j m3 m' h3j (hk3 j hj m m3 hm hmv h3j) hm'
+        rw [if_neg hd4]
         have hcur4 : cur < r4.nodes.size := Nat.lt_of_lt_of_le (Root.lt_size_of_get? hn3) g4.size
         have ia : RInvP P { r4 with current := some cur, tracker := some [] } :=
           i4.congr rfl (by intro c hc; simp only [Option.some.injEq] at hc; subst hc; exact hcur4)
